@@ -58,7 +58,9 @@ def neighbour(version):
 
 
 class Config(object):
-    def __init__(self, k, m, s, start, with_neighbour, pkg=None):
+    def __init__(self, k, m, s, start, with_neighbour, pkg=None,
+                 db='default'):
+        self.db = db                    # the database being upgraded
         self.k, self.m, self.s = k, m, s
         self.pkg = pkg                  # package name when != app label
         self.start = start              # 'empty' | 'v0' | 'e<j>'
@@ -67,8 +69,11 @@ class Config(object):
         self.marked = [n for n, _t in self.chain[:s]]
 
     def describe(self):
-        return {'k': self.k, 'm': self.m, 'mark_applied': self.marked,
-                'start': self.start, 'neighbour': self.nb, 'pkg': self.pkg}
+        d = {'k': self.k, 'm': self.m, 'mark_applied': self.marked,
+             'start': self.start, 'neighbour': self.nb, 'pkg': self.pkg}
+        if self.db != 'default':
+            d['db'] = self.db
+        return d
 
     def kind(self):
         if self.s == self.k + 1:
@@ -119,8 +124,8 @@ class Config(object):
                           migrations={'vm': self.chain})
 
 
-def vm_migration_rows():
-    bk = O.bookkeeping_dump('default')
+def vm_migration_rows(db='default'):
+    bk = O.bookkeeping_dump(db)
     return [n for (a, n) in (bk['migrations'] or []) if a == 'vm']
 
 
@@ -129,13 +134,20 @@ def run_config(cfg, driver, stats, add):
     replay = dict(cfg.describe(), driver=driver)
     shape = '%s|%s|%s' % (cfg.kind(), cfg.start if cfg.start in
                           ('empty', 'v0') else 'at-evolution', driver)
+    if cfg.db != 'default':
+        shape += '|db=' + cfg.db
     # ---- start state
-    B.fresh_db('default')
+    db = cfg.db
+    B.fresh_db(db)
+    other_before = None
+    if db != 'default':
+        B.fresh_db('default')
+        other_before = B.snapshot('default')
     B.reset_globals()
     if cfg.start != 'empty':
         upto = 0 if cfg.start == 'v0' else int(cfg.start[1:])
         cfg.install_old(upto)
-        r0 = EB.upgrade('D2')
+        r0 = EB.upgrade('D2', db=db)
         if not r0.ok:
             add('C10|setup-fails|%s' % r0.exc_type, replay,
                 {'error': str(r0.exc)[:300]})
@@ -144,9 +156,9 @@ def run_config(cfg, driver, stats, add):
     cfg.install_final()
     B.reset_globals()
     seq = [0]
-    tracer = O.Tracer('default', seq=seq)
+    tracer = O.Tracer(db, seq=seq)
     with O.SignalLog(seq) as log:
-        res = EB.upgrade(driver, tracer=tracer)
+        res = EB.upgrade(driver, tracer=tracer, db=db)
     stats['runs'] += 1
     if not res.ok:
         msg = str(getattr(res.exc, 'detailed_error', None) or res.exc)
@@ -158,6 +170,9 @@ def run_config(cfg, driver, stats, add):
              'stderr': getattr(res, 'stderr', '')[:200]})
         return
     stats['handovers_completed'] += 1
+    if other_before is not None and B.snapshot('default') != other_before:
+        add('C10|other-database-modified|%s' % shape, replay,
+            {'tables': O.list_tables('default')})
     evs = log.events
     first_mig = [sq for (sq, nm, p) in evs if nm == 'applying_migration'
                  and p.get('migration', ('', ''))[0] == 'vm']
@@ -191,7 +206,7 @@ def run_config(cfg, driver, stats, add):
     if pos != sorted(pos):
         add('C10|migrations-out-of-dependency-order|%s' % shape, replay,
             {'executed': executed})
-    rows = vm_migration_rows()
+    rows = vm_migration_rows(db)
     if len(rows) != len(set(rows)):
         dup = sorted(set(n for n in rows if rows.count(n) > 1))
         tag = 'marked' if any(n in cfg.marked for n in dup) else \
@@ -201,7 +216,7 @@ def run_config(cfg, driver, stats, add):
     if sorted(set(rows)) != sorted(chain_names):
         add('C10|recorded-migrations-wrong|%s' % shape, replay,
             {'rows': rows, 'want': chain_names})
-    sig = D.stored_signature().get_app_sig('vm')
+    sig = D.stored_signature(db).get_app_sig('vm')
     if sig is None or sig.upgrade_method != 'migrations':
         add('C10|upgrade-method-not-migrations|%s' % shape, replay,
             {'method': getattr(sig, 'upgrade_method', None)})
@@ -212,22 +227,22 @@ def run_config(cfg, driver, stats, add):
     if cfg.kind() == 'consistent':
         want = R.fresh(P(cfg.vm_app(cfg.m - 1)))['schema']
         cfg.install_final()
-        got = {t: d for t, d in O.schema_dump('default', skip=SKIP).items()
+        got = {t: d for t, d in O.schema_dump(db, skip=SKIP).items()
                if t.startswith('vm_')}
         if got != want:
             add('C10|schema-differs-from-fresh|%s' % shape, replay,
                 {'got': str(got)[:300], 'want': str(want)[:300]})
     # ---- a further run must be a no-op for the app
-    image = B.snapshot('default')
+    image = B.snapshot(db)
     cfg.install_final()
     B.reset_globals()
     from django_evolution.evolve import Evolver
     try:
-        ev = Evolver()
+        ev = Evolver(database_name=db)
         ev.queue_evolve_all_apps()
         if ev.get_evolution_required():
             add('C10|second-run-required|%s' % shape, replay, {})
-        hint = Evolver(hinted=True)
+        hint = Evolver(hinted=True, database_name=db)
         hint.queue_evolve_all_apps()
         texts = [t for t in hint.iter_evolution_content()
                  if t[0].app_label == 'vm']
@@ -237,10 +252,11 @@ def run_config(cfg, driver, stats, add):
     except Exception as e:
         add('C10|second-run-crashes|%s|%s' % (type(e).__name__, shape),
             replay, {'error': str(e)[:300]})
-    B.restore(image, 'default')
+    B.restore(image, db)
     cfg.install_final()
-    tracer2 = O.Tracer('default')
-    res2 = EB.upgrade(driver if driver != 'D2' else 'D3', tracer=tracer2)
+    tracer2 = O.Tracer(db)
+    res2 = EB.upgrade(driver if driver != 'D2' else 'D3', tracer=tracer2,
+                      db=db)
     stats['runs'] += 1
     eff = [q for q, _p in tracer2.effects()
            if not q.upper().startswith('PRAGMA')]
@@ -265,11 +281,18 @@ def configs(tier):
                         out.append((k, m, s, st, nb, None))
                     # app label different from the package name
                     out.append((k, m, s, st, False, 'vmpkg'))
+                    # the hand-over of a non-default database
+                    if st != 'empty' or tier != 'quick':
+                        out.append((k, m, s, st, False, None, 'other'))
     return out
 
 
 def work(task):
-    k, m, s, st, nb, pkg, driver = task
+    if len(task) == 8:
+        k, m, s, st, nb, pkg, db, driver = task
+    else:
+        k, m, s, st, nb, pkg, driver = task
+        db = 'default'
     stats = {'configs': 0, 'runs': 0, 'expected_failures': 0,
              'handovers_completed': 0, 'samples': []}
     viol = {}
@@ -284,7 +307,7 @@ def work(task):
             ent['count'] += 1
             if size < ent['size']:
                 ent.update(exemplar=replay, detail=detail, size=size)
-    cfg = Config(k, m, s, st, nb, pkg)
+    cfg = Config(k, m, s, st, nb, pkg, db)
     run_config(cfg, driver, stats, add)
     stats['samples'].append(dict(cfg.describe(), driver=driver))
     return stats, viol
@@ -338,7 +361,7 @@ def replay(path):
     r = doc['replay']
     s = len(r['mark_applied'])
     cfg = Config(r['k'], r['m'], s, r['start'], r['neighbour'],
-                 r.get('pkg'))
+                 r.get('pkg'), r.get('db', 'default'))
     found = {}
 
     def add(fp, replay, detail):
